@@ -97,6 +97,7 @@ type pnode struct {
 	res  *dkg.Result
 	err  error
 	done bool
+	dealerIdx uint32 // the index under which it deals (resharing: its index in the old group)
 	sent [3]string // canonical form of the bundle it emitted in each phase
 }
 
@@ -105,6 +106,7 @@ type outcome struct {
 	dealPub0          map[uint32]kyber.Point // constant commitment each dealer announced (as delivered)
 	oldPub            kyber.Point            // resharing: the public key before
 	complaintsAgainst map[uint32]int
+	victimSilent      string // an honest receiver of an invalid share that did not complain about its dealer
 }
 
 var ed = edwards25519.NewBlakeSHA256Ed25519()
@@ -319,6 +321,10 @@ func runPedersen(p pcfg, old *outcome) *outcome {
 			return true
 		}
 		curFault = p.fault
+		if p.fault.party >= 1000 { // a leaving old member (dealer only) deviates
+			k := p.fault.party - 1000
+			return k < len(leavers) && nd == leavers[k]
+		}
 		return p.fault.party >= 0 && nd == nodes[p.fault.party%len(nodes)]
 	}
 	sign := func(nd *pnode, pk dkg.Packet) []byte {
@@ -341,6 +347,7 @@ func runPedersen(p pcfg, old *outcome) *outcome {
 			continue // new members cannot deal
 		}
 		nd.sent[0] = canonDeal(b)
+		nd.dealerIdx = b.DealerIndex
 		if isFaulty(nd) {
 			fk := curFault.kind
 			victim := uint32(curFault.target % n)
@@ -426,6 +433,31 @@ func runPedersen(p pcfg, old *outcome) *outcome {
 			continue
 		}
 		nd.sent[1] = canonResp(rb)
+		// an honest receiver of an invalid (undecryptable / off-polynomial) share answers with a complaint about that dealer
+		if strings.HasPrefix(p.fault.kind, "bad-share") && p.fault2.kind == "" && p.fault.party >= 0 && !isFaulty(nd) && ni < len(nodes) &&
+			nd.idx == uint32(p.fault.target%n) {
+			var dealer *pnode
+			if p.fault.party >= 1000 {
+				if k := p.fault.party - 1000; k < len(leavers) {
+					dealer = leavers[k]
+				}
+			} else {
+				dealer = nodes[p.fault.party%len(nodes)]
+			}
+			if dealer != nil && dealer != nd && dealer.sent[0] != "" {
+				complained := false
+				if rb != nil {
+					for _, r := range rb.Responses {
+						if r.DealerIndex == dealer.dealerIdx && r.Status == dkg.Complaint {
+							complained = true
+						}
+					}
+				}
+				if !complained {
+					out.victimSilent = fmt.Sprintf("node %d received an invalid share from dealer %d and its response bundle carries no complaint about that dealer", nd.idx, dealer.dealerIdx)
+				}
+			}
+		}
 		if isFaulty(nd) {
 			fk := curFault.kind
 			accused := uint32(curFault.target % max(len(oldNodesOr(newNodes, oldNodes)), 1))
@@ -450,6 +482,10 @@ func runPedersen(p pcfg, old *outcome) *outcome {
 					rb = &dkg.ResponseBundle{ShareIndex: nd.idx, Responses: []dkg.Response{{DealerIndex: accused, Status: dkg.Complaint}}}
 				}
 				rb.SessionID = bytes.Repeat([]byte{2}, dkg.NonceLength)
+			case "response-with-unknown-status-code":
+				// a correctly signed bundle whose entry for an honest dealer carries a status that is neither Success nor
+				// Complaint: it accuses nobody of anything
+				rb = &dkg.ResponseBundle{ShareIndex: nd.idx, SessionID: nonce, Responses: []dkg.Response{{DealerIndex: accused, Status: 2}}}
 			case "response-names-unknown-dealer":
 				rb = &dkg.ResponseBundle{ShareIndex: nd.idx, SessionID: nonce, Responses: []dkg.Response{{DealerIndex: uint32(n + 7), Status: dkg.Complaint}}}
 			}
@@ -553,9 +589,13 @@ func judge(x *vf.Ctx, c *vf.Check, p pcfg, o *outcome, pk string) {
 }
 
 func judgeAs(x *vf.Ctx, c *vf.Check, p pcfg, o *outcome, pk, id string) {
+	if o.victimSilent != "" {
+		x.Failf(pk+"/invalid-share-not-complained-about", "%s: %s", id, o.victimSilent)
+		return
+	}
 	var honest []*pnode
 	for i, nd := range o.nodes {
-		if p.fault.party >= 0 && i == p.fault.party%len(o.nodes) {
+		if p.fault.party >= 0 && p.fault.party < 1000 && i == p.fault.party%len(o.nodes) {
 			continue
 		}
 		if p.fault2.kind != "" && p.fault2.party >= 0 && i == p.fault2.party%len(o.nodes) {
@@ -672,14 +712,14 @@ func judgeAs(x *vf.Ctx, c *vf.Check, p pcfg, o *outcome, pk, id string) {
 		return false
 	}
 	f := p.fault
-	if f.party >= 0 && p.fault2.kind == "" {
+	if f.party >= 0 && f.party < 1000 && p.fault2.kind == "" {
 		fi := o.nodes[f.party%len(o.nodes)].idx
 		switch f.kind {
 		case "bad-share+no-justification", "bad-share+bad-justification":
 			if p.reshare == "" && inQual(fi) && int(f.target%len(o.nodes)) != f.party%len(o.nodes) {
 				x.Failf(pk+"/unjustified-dealer-qualified", "%s: the dealer whose invalid deal stayed unjustified is in QUAL {%s}", id, qual(ref))
 			}
-		case "false-complaint":
+		case "false-complaint", "response-with-unknown-status-code":
 			if p.reshare == "" {
 				acc := uint32(f.target % len(o.nodes))
 				if acc != fi && !inQual(acc) {
@@ -701,11 +741,12 @@ func pedersenFaults(n int, reshare bool) []fault {
 	fs := []fault{{"none", -1, 0}}
 	kinds1 := []string{"absent", "absent-responses", "absent-justifications", "share-index-out-of-range", "commitments-short", "commitments-long", "wrong-session-id-deals",
 		"duplicate-deal-bundle", "conflicting-deal-bundles", "success-response-in-regular-mode", "wrong-session-id-responses", "response-names-unknown-dealer",
+		
 		"justification-index-out-of-range", "wrong-session-id-justifications"}
 	if reshare {
 		kinds1 = append(kinds1, "wrong-constant-term")
 	}
-	kindsT := []string{"bad-share", "bad-share+no-justification", "bad-share+bad-justification", "share-to-wrong-holder", "false-complaint"}
+	kindsT := []string{"bad-share", "bad-share+no-justification", "bad-share+bad-justification", "share-to-wrong-holder", "false-complaint", "response-with-unknown-status-code"}
 	for _, party := range []int{0, n - 1} {
 		for _, k := range kinds1 {
 			fs = append(fs, fault{k, party, 0})
